@@ -1155,6 +1155,9 @@ func runCase(cx *lib.Ctx, cs Case) {
 }
 
 func runC12(cx *lib.Ctx) {
+	if cx.Replay == "" {
+		corrNodes(cx)
+	}
 	res := cx.Res
 	defer debug.SetGCPercent(debug.SetGCPercent(400))
 	if cx.Replay != "" {
